@@ -309,6 +309,24 @@ pub fn eval_plan(w: &CliWorld, cmd: &UCmd, plan: &Plan, known: &KnownFindings) -
         }
         continue;
       }
+      // the run was aborted by a write error on another file: a file whose documents come as
+      // separate payloads may have received only the payloads processed before the abort
+      if write_fault.is_some() && docs.len() >= 2 {
+        let dv: Vec<&str> = docs.iter().copied().collect();
+        let mut partial = false;
+        for mask in 1u32..(1u32 << dv.len()) - 1 {
+          let only: Vec<AnnEdit> = edits.iter().filter(|e| dv.iter().enumerate().any(|(i, d)| mask & (1 << i) != 0 && *d == e.doc)).cloned().collect();
+          if let Some(m) = model_results(old, &only) {
+            if m.iter().any(|(b, _)| b == new) {
+              partial = true;
+            }
+          }
+        }
+        if partial {
+          n_assertable = false;
+          continue;
+        }
+      }
       // mismatch: is it the listed multi-document finding?
       let mut attributed = false;
       if docs.len() >= 2 {
